@@ -643,7 +643,7 @@ class RouterAddInner(Contract):
                    'a Route object is truthy')
     expected_labels = ('name.clash_refused_before_any_change', 'route.registered_rule_reuses_its_route', 'route.new_rule_enters_tree_and_index_together',
                        'methods.bound_with_the_requested_mode', 'name.bound_to_the_serving_route', 'post.returns_the_serving_route',
-                       'route.looked_up_by_pattern_and_filters')
+                       'route.looked_up_by_pattern_and_filters', 'route.refused_by_the_tree_changes_nothing')
 
     def pre(self, X):
         g = X.globals
@@ -662,6 +662,7 @@ class RouterAddInner(Contract):
         self.old_route = VObj('Route', {'pattern': self.new_route.fields['pattern'], 'filters': self.new_route.fields['filters'], 'truthy': VBool(True)})
         self.other_route = VObj('Route', {'pattern': X.fresh_str('other_pattern'), 'filters': NONE, 'truthy': VBool(True)})
         self.events = []
+        self.tree_refused = False
         c = self
 
         def route_ctor(X, args, kwargs):
@@ -687,6 +688,10 @@ class RouterAddInner(Contract):
             return cur if cur is not None else NONE
 
         def tree_add(X, args, kwargs):
+            # the tree may refuse the rule (a wildcard at a shared position with another filter: RadiDictKeyError, a LookupError)
+            if X.choose(2, 'tree.add: accepts | refuses') == 1:
+                c.tree_refused = True
+                X.raise_(LookupError, 'tree refuses')
             c.events.append(('tree.add', args[1:]))
             return NONE
 
@@ -763,6 +768,9 @@ class RouterAddInner(Contract):
             X.prove('methods.bound_with_the_requested_mode',
                     z3.And(z3.BoolVal(len(binds) == 1 and binds[0][0] == 'add_method' and not [e for e in self.events if e[0] == 'names[]']),
                            z3.Not(self.overwrite.t)))
+        elif exc.pyclass is LookupError and self.tree_refused:
+            # a registration the tree refuses leaves the route index, the name index and every method table as they were
+            X.prove('route.refused_by_the_tree_changes_nothing', z3.BoolVal(not self._changes()))
         else:
             X.prove('raises.only_build_or_method_errors', z3.BoolVal(False))
 
